@@ -3,6 +3,7 @@ package main
 import (
 	"context"
 	"encoding/json"
+	"errors"
 	"fmt"
 	"reflect"
 	"sort"
@@ -10,6 +11,7 @@ import (
 
 	"github.com/hashicorp/eventlogger"
 	"github.com/hashicorp/eventlogger/filters/encrypt"
+	wrapping "github.com/hashicorp/go-kms-wrapping/v2"
 )
 
 type dLeaf struct {
@@ -35,6 +37,22 @@ type dNest struct {
 	MB map[string][]byte
 	PM *map[string]interface{}
 	N  int
+}
+
+// flakyWrapper fails its n-th Encrypt call (a transient KMS failure)
+type flakyWrapper struct {
+	wrapping.Wrapper
+	failAt, calls int
+	failed        bool
+}
+
+func (f *flakyWrapper) Encrypt(ctx context.Context, pt []byte, opt ...wrapping.Option) (*wrapping.BlobInfo, error) {
+	f.calls++
+	if f.calls == f.failAt {
+		f.failed = true
+		return nil, errors.New("kms unavailable")
+	}
+	return f.Wrapper.Encrypt(ctx, pt, opt...)
 }
 
 type canary struct{ n int }
@@ -176,6 +194,17 @@ func deepShapes(p *prng, n int, st *stats, oracle func(string, ...any)) {
 			payload, kind = nst, "ptr-nested-sparse"
 		}
 		st.hit("deep:" + kind)
+		// a quarter of the cases run with a wrapper whose n-th Encrypt fails, and with the sensitive
+		// elements of slices encrypted, so that a failure can fall on any element of a slice
+		var fw *flakyWrapper
+		f.Wrapper = testWrapper(1)
+		f.FilterOperationOverrides = nil
+		if p.chance(1, 4) {
+			fw = &flakyWrapper{Wrapper: testWrapper(1), failAt: 1 + p.intn(6)}
+			f.Wrapper = fw
+			f.FilterOperationOverrides = map[encrypt.DataClassification]encrypt.FilterOperation{encrypt.SecretClassification: encrypt.EncryptOperation}
+			st.hit("deep:flaky-wrapper")
+		}
 		var inS, inShape strings.Builder
 		collect(reflect.ValueOf(payload), &inS, &inShape)
 		before, _ := json.Marshal(payload)
@@ -197,6 +226,9 @@ func deepShapes(p *prng, n int, st *stats, oracle func(string, ...any)) {
 		}
 		if string(before) != string(after) {
 			once("C10", kind, "Process modified the payload it was given")
+		}
+		if fw != nil && fw.failed && err == nil {
+			once("C09", kind+"/flaky", fmt.Sprintf("the wrapper failed on Encrypt call %d but Process returned no error: not failing closed", fw.failAt))
 		}
 		if err != nil {
 			if strings.HasPrefix(err.Error(), "PANIC") {
